@@ -617,6 +617,38 @@ fn toml_string(cfg: &ProjectConfig) -> String {
 
 // ------------------------------------------------------------------------------------------
 
+/// Exhaustive tier: every truncation point and every single-bit flip of every artefact of at
+/// most `EXHAUSTIVE_MAX` bytes, cut into chunks of `CHUNK` cases so that one run stays short.
+const EXHAUSTIVE_MAX: usize = 4096;
+const CHUNK: usize = 2500;
+
+fn exhaustive_plan() -> Vec<(usize, usize)> {
+    // (artefact index, chunk index)
+    let mut plan = vec![];
+    for (i, a) in corpus().iter().enumerate() {
+        if a.bytes.len() <= EXHAUSTIVE_MAX && !a.bytes.is_empty() {
+            let cases = a.bytes.len() * 9;
+            for c in 0..cases.div_ceil(CHUNK) {
+                plan.push((i, c));
+            }
+        }
+    }
+    plan
+}
+
+fn exhaustive_case(a: &Artefact, n: usize) -> Option<Fault> {
+    let len = a.bytes.len();
+    if n < len {
+        Some(Fault::Truncate(n))
+    } else if n < len * 9 {
+        Some(Fault::FlipBit(n - len))
+    } else {
+        None
+    }
+}
+
+const RANDOM_RUNS_THOROUGH: u64 = 3200;
+
 fn gen_fault(rng: &mut Rng, a: &Artefact) -> Fault {
     let n = a.bytes.len().max(1);
     // Bias half of the positions into the hot regions.
@@ -775,7 +807,7 @@ impl Engine for StorageEngine {
     fn runs(&self, tier: Tier) -> u64 {
         match tier {
             Tier::Quick => 640,
-            Tier::Thorough => 6400,
+            Tier::Thorough => RANDOM_RUNS_THOROUGH + exhaustive_plan().len() as u64,
         }
     }
     fn selfcheck_runs(&self, tier: Tier) -> u64 {
@@ -794,10 +826,16 @@ impl Engine for StorageEngine {
         // Runs walk the corpus round-robin so every artefact is visited; thorough runs in the
         // second half enumerate every truncation point and every single-bit flip of artefacts
         // up to 4 KiB.
-        let a = arts[(ctx.k as usize) % arts.len()].clone();
-        let exhaustive = ctx.tier == Tier::Thorough
-            && ctx.k >= self.runs(Tier::Thorough) / 2
-            && a.bytes.len() <= 4096;
+        let chunk: Option<(usize, usize)> = if ctx.tier == Tier::Thorough && ctx.k >= RANDOM_RUNS_THOROUGH {
+            exhaustive_plan().get((ctx.k - RANDOM_RUNS_THOROUGH) as usize).copied()
+        } else {
+            None
+        };
+        let a = match chunk {
+            Some((i, _)) => arts[i].clone(),
+            None => arts[(ctx.k as usize) % arts.len()].clone(),
+        };
+        let exhaustive = chunk.is_some();
         let cases = match ctx.tier {
             Tier::Quick => 150,
             Tier::Thorough => 400,
@@ -820,14 +858,14 @@ impl Engine for StorageEngine {
                 inner.stats.note("artefact_not_accepted_unfaulted", &a.id);
             }
             let mut plans: Vec<Vec<Fault>> = vec![];
-            if exhaustive {
-                for t in 0..a.bytes.len() {
-                    plans.push(vec![Fault::Truncate(t)]);
+            if let Some((_, c)) = chunk {
+                for n in c * CHUNK..(c + 1) * CHUNK {
+                    if let Some(f) = exhaustive_case(&a, n) {
+                        plans.push(vec![f]);
+                    }
                 }
-                for b in 0..a.bytes.len() * 8 {
-                    plans.push(vec![Fault::FlipBit(b)]);
-                }
-                inner.stats.inc("exhaustive_artefacts", 1);
+                inner.stats.inc("exhaustive_chunks", 1);
+                inner.stats.add("exhaustive_artefacts", hash_str(&a.id));
             } else {
                 for _ in 0..cases {
                     let n = match rng.below(10) {
@@ -956,7 +994,11 @@ impl Engine for StorageEngine {
                     "rejected_at_read_invalid_utf8": stats.get("rejected_at_read_invalid_utf8"),
                     "panics": stats.get("panics"),
                 },
-                "exhaustive_artefacts_enumerated": stats.get("exhaustive_artefacts"),
+                "exhaustive_enumeration": {
+                    "artefacts_fully_enumerated": stats.distinct("exhaustive_artefacts"),
+                    "chunks_of_2500_cases": stats.get("exhaustive_chunks"),
+                    "space": "every truncation point and every single-bit flip of every artefact of at most 4096 bytes",
+                },
                 "exhaustive": false,
                 "unfaulted_artefacts_not_accepted": stats.notes.get("artefact_not_accepted_unfaulted"),
                 "components": {
